@@ -400,6 +400,8 @@ func (p *Prog) FrameObligations(prop string) []*Obligation {
 	switch prop {
 	case "C08":
 		return p.c08Obligations()
+	case "C13":
+		return p.c13Obligations()
 	case "C10", "C09":
 		tags := []string{prop}
 		var entries []string
@@ -785,5 +787,123 @@ func (p *Prog) c08Obligations() []*Obligation {
 	}
 	sort.Strings(extra)
 	obls = append(obls, analysisObl("frame:compile-api#opa-packages", "frame", tags, len(extra) == 0, "only the rego and ast packages of the engine are called", "", strings.Join(extra, "\n"), "validator.CompileRego"))
+	return obls
+}
+
+// ---- C13: user text reaches generated code only through a quoting function ------------------------------------------
+
+type textSource struct{ typ, field string }
+
+var c13Sources = []textSource{{"profile.Profile", "Name"}, {"profile.Message", "Expression"}, {"profile.ScalarSetRule", "Argument"}, {"profile.PatternRule", "Argument"}}
+var c13ParamSources = map[string]string{"generator.wrapBranch": "name"}
+var c13Sanitizers = map[string]bool{"generator.regoString": true, "generator.regoStringList": true, "generator.sanitizedMessage": true, "profile.ScalarSetRule.JSONValues": true,
+	"encoding/json.Marshal": true, "regexp.Regexp.ReplaceAllString": true, "generator.regexLiteral": true}
+
+func (p *Prog) c13Obligations() []*Obligation {
+	tags := []string{"C13"}
+	var obls []*Obligation
+	for _, n := range p.Order {
+		fi := p.Funcs[n]
+		if fi.Pkg.Types.Name() != "generator" || fi.Obj == nil {
+			continue
+		}
+		info := fi.Pkg.TypesInfo
+		type occ struct {
+			src string
+			ok  bool
+			pos string
+			txt string
+		}
+		var occs []occ
+		var stack []ast.Node
+		ast.Inspect(fi.Body(), func(nd ast.Node) bool {
+			if nd == nil {
+				stack = stack[:len(stack)-1]
+				return true
+			}
+			stack = append(stack, nd)
+			src := ""
+			switch x := nd.(type) {
+			case *ast.SelectorExpr:
+				if sel, ok := info.Selections[x]; ok && sel.Kind() == types.FieldVal {
+					rt := sel.Recv()
+					if pt, ok := rt.(*types.Pointer); ok {
+						rt = pt.Elem()
+					}
+					tn := shortTypeName(rt)
+					for _, s := range c13Sources {
+						if s.typ == tn && s.field == x.Sel.Name {
+							src = tn[strings.Index(tn, ".")+1:] + "." + s.field
+						}
+					}
+				}
+			case *ast.Ident:
+				if pn, ok := c13ParamSources[n]; ok && x.Name == pn {
+					if v, ok := info.Uses[x].(*types.Var); ok && !isPkgLevel(v) {
+						src = pn
+					}
+				}
+			}
+			if src == "" {
+				return true
+			}
+			ok := false
+			// enclosing calls, innermost first
+			for i := len(stack) - 2; i >= 0 && !ok; i-- {
+				c, isCall := stack[i].(*ast.CallExpr)
+				if !isCall {
+					if _, isStmt := stack[i].(ast.Stmt); isStmt {
+						// comparisons / conditions are not emissions
+						if ifs, isIf := stack[i].(*ast.IfStmt); isIf && i+1 < len(stack) && stack[i+1] == ast.Node(ifs.Cond) {
+							ok = true
+						}
+						break
+					}
+					continue
+				}
+				if callee, _ := p.staticCallee(info, c); callee != nil {
+					if c13Sanitizers[callee.Name] {
+						ok = true
+					} else {
+						ok = true // handed to another repository function: that function has its own obligation
+						if callee.Pkg.Types.Name() != "generator" && callee.Pkg.Types.Name() != "profile" {
+							ok = true
+						}
+					}
+					break
+				}
+				if fn := externalCallee(info, c); fn != nil {
+					full := extFullName(fn)
+					if c13Sanitizers[full] {
+						ok = true
+						break
+					}
+					if strings.HasPrefix(full, "fmt.") || full == "strings.Join" {
+						break // emission
+					}
+					if id, isB := unparen(c.Fun).(*ast.Ident); isB && (id.Name == "len") {
+						ok = true
+						break
+					}
+					continue // e.g. strings.ToLower(x): keep looking outwards
+				}
+			}
+			occs = append(occs, occ{src, ok, p.pos(nd), exprString(nd.(ast.Expr))})
+			return true
+		})
+		bySrc := map[string][]occ{}
+		for _, o := range occs {
+			bySrc[o.src] = append(bySrc[o.src], o)
+		}
+		for _, s := range sortedKeys(bySrc) {
+			var bad []string
+			for _, o := range bySrc[s] {
+				if !o.ok {
+					bad = append(bad, fmt.Sprintf("%s is interpolated at %s without passing through a quoting function", o.txt, o.pos))
+				}
+			}
+			obls = append(obls, analysisObl("esc:"+n+"#"+s, "esc", tags, len(bad) == 0, "user text "+s+" reaches the generated code of "+n+" only as the argument of a quoting function under a C13 contract", p.pos(fi.Body()), strings.Join(bad, "\n"), n))
+		}
+	}
 	return obls
 }
